@@ -150,11 +150,11 @@ func (r *yRows) AscendGreaterOrEqual(a []byte, it bttest.RowIterator) {
 	hookYield("rows.AscendGE")
 	r.in.AscendGreaterOrEqual(a, yIter(it))
 }
-func (r *yRows) Clear()                    { hookYield("rows.Clear"); r.in.Clear() }
-func (r *yRows) Delete(k []byte)           { hookYield("rows.Delete"); r.in.Delete(k) }
-func (r *yRows) Get(k []byte) *btpb.Row    { hookYield("rows.Get"); return r.in.Get(k) }
+func (r *yRows) Clear()                      { hookYield("rows.Clear"); r.in.Clear() }
+func (r *yRows) Delete(k []byte)             { hookYield("rows.Delete"); r.in.Delete(k) }
+func (r *yRows) Get(k []byte) *btpb.Row      { hookYield("rows.Get"); return r.in.Get(k) }
 func (r *yRows) ReplaceOrInsert(x *btpb.Row) { hookYield("rows.Put"); r.in.ReplaceOrInsert(x) }
-func (r *yRows) Close()                    { r.in.Close() }
+func (r *yRows) Close()                      { r.in.Close() }
 
 // ---- wire round trip ------------------------------------------------------------------------
 
